@@ -56,7 +56,7 @@ fn main() {
         match wl.as_str() {
             // upper-layer workloads observe the API; chmux hook events would only bloat their traces
             "rwlock" => install_hook_sink_for(&["rw_"]),
-            "robs_script" | "bcast" | "watch" | "typed_base" | "typed_mpsc" | "rtc" | "rtc_once" | "rfn" | "robs_chain" | "io" => {}
+            "robs_script" | "bcast" | "watch" | "typed_base" | "typed_mpsc" | "rtc" | "rtc_once" | "rfn" | "robs_chain" | "io" | "wiring" => {}
             _ => install_hook_sink(),
         }
         match wl.as_str() {
@@ -135,6 +135,10 @@ fn main() {
             }
             "robs_chain" => {
                 rt.block_on(robs::chain_scenario(s, get("coll", 4)));
+            }
+            "wiring" => {
+                let o = wiring::WiringOpts { hops: get("hops", 0), max_ports: get("max_ports", 0), cut: get("cut", 0) != 0 };
+                rt.block_on(wiring::scenario(s, &o));
             }
             "io" => {
                 let o = iochan::IoOpts { cut: get("cut", 0) != 0, place: get("place", 3) };
